@@ -63,8 +63,8 @@ CONSUMERS = [
     ("find:p1", f"find({PREDS_REF['p1']})", f".find({PREDS_REF['p1']})", False),
     ("find_map:fm1", f"find_map({FMAPS['fm1']})", f".find_map({FMAPS['fm1']})", False),
     ("rfind:p1", f"rfind({PREDS_REF['p1']})", f".rfind({PREDS_REF['p1']})", True),
-    ("fold:a1", "fold(1i64, |a, x| a * 3 + x)", ".fold(1i64, |a, x| a * 3 + x)", False),
-    ("rfold:a1", "rfold(1i64, |a, x| a * 3 + x)", ".rfold(1i64, |a, x| a * 3 + x)", True),
+    ("fold:a1", "fold(1i64, |a, x| (a * 3 + x).rem_euclid(1000003))", ".fold(1i64, |a, x| (a * 3 + x).rem_euclid(1000003))", False),
+    ("rfold:a1", "rfold(1i64, |a, x| (a * 3 + x).rem_euclid(1000003))", ".rfold(1i64, |a, x| (a * 3 + x).rem_euclid(1000003))", True),
     ("next", "next()", ".next()", False),
     ("nth:0", "nth(0)", ".nth(0)", False),
     ("nth:1", "nth(1)", ".nth(1)", False),
@@ -142,6 +142,31 @@ def gen_chains(tier, rng):
         seen.add(key)
         chains.append(c)
         want -= 1
+    # a few LONG chains (depth 5-7; at most two item-multiplying adapters so that sizes stay bounded)
+    want_long = 60 if tier == "quick" else 400
+    tries = 0
+    while want_long > 0 and tries < 200000:
+        tries += 1
+        depth = rng.choice([5, 6, 7])
+        c, ty, nrev, nflat = [], "I", 0, 0
+        for _ in range(depth):
+            opts = [a for a in by_from[ty] if not (a[0] == "rev" and nrev >= 1)
+                    and not (a[0].startswith(("flat_map", "map:mr1")) and nflat >= 2)]
+            a = rng.choice(opts)
+            if a[0] == "rev":
+                nrev += 1
+            if a[0].startswith(("flat_map", "map:mr1")):
+                nflat += 1
+            c.append(a)
+            ty = a[2]
+        if ty != "I":
+            continue
+        key = tuple(a[0] for a in c)
+        if key in seen:
+            continue
+        seen.add(key)
+        chains.append(c)
+        want_long -= 1
     return chains, exhaustive
 
 
@@ -175,7 +200,9 @@ def generate(ctx):
     d = common.workdir("C10")
     chains, exhaustive = gen_chains(tier, rng)
     small = inputs_small()
-    few = [x for x in small if len(x) <= 2] + [[rng.randrange(4) for _ in range(rng.choice([3, 4, 5, 6]))] for _ in range(20)]
+    few = ([x for x in small if len(x) <= 2] + [[rng.randrange(4) for _ in range(rng.choice([3, 4, 5, 6]))] for _ in range(20)]
+           # long inputs over a larger alphabet
+           + [[rng.randrange(10) for _ in range(rng.choice([9, 12, 16, 23]))] for _ in range(8)])
 
     funcs = []   # rust source of each function + its driver call
     nprog = 0
